@@ -13,6 +13,8 @@
                     destroyAll destroys all elements and frees the heap block iff one is owned.
   C38.move-transfer the element-wise loops of the move constructor / move assignment destroy each source
                     element they moved from (the source is then declared empty without destructors).
+  C38.heap-bit      every plain assignment to this->size_ keeps the storage-mode bit (or is `= 0` right
+                    after destroyAll()).
   C38.growth        every growToHeap(newCap) reached from emplace_back on a full vector asks for more
                     than the capacity it replaces, evaluated for each instantiated N (N = 1 included)
                     and a family of heap capacities.
@@ -102,6 +104,7 @@ def run(R):
     R.need("C38.lifetime", n2, 4, "SmallVector lifetime sites")
     growth_rule(R)
     move_transfer_rule(R)
+    heap_bit_rule(R)
 
 
 def growth_rule(R):
@@ -176,3 +179,31 @@ def move_transfer_rule(R):
                  "elements are move-constructed out of `other` but never destroyed; `other` is then declared empty, so their destructors never run",
                  sitekey="%s:inline-loop" % nm, why="every element constructed must be destroyed exactly once")
     R.need("C38.move-transfer", n, 2, "element-wise move loops (move constructor, move assignment)")
+
+
+def heap_bit_rule(R):
+    """C38.heap-bit: the top bit of size_ says whether the elements live in the heap block. Every plain
+    assignment to this->size_ either carries that bit along (`(size_ & kHeapBit) | n`, `kHeapBit | n`)
+    or is `size_ = 0` right after destroyAll() released the heap block. `size_ = count` on a vector
+    that has spilled silently switches it back to the inline buffer: the heap block and its elements
+    are lost and the inline slots are treated as live objects."""
+    F = R.F
+    n = 0
+    for fn in F.functions(cls=CLS):
+        if "Tracked" not in fn.raw.get("clsinst", ""):
+            continue
+        for p, e in fn.events():
+            if not (e.get("k") == "bin" and e.get("op") == "="):
+                continue
+            l = strip_casts(e.get("l"))
+            if not (isinstance(l, dict) and l.get("k") == "member" and l.get("fname") == "size_" and isinstance(strip_casts(l.get("base")), dict) and strip_casts(l.get("base")).get("k") == "this"):
+                continue
+            n += 1
+            r = e.get("r")
+            keeps = any(isinstance(x, dict) and x.get("k") == "var" and x.get("name") == "kHeapBit" for x in subexprs(fn.expand_expr(r, use_block=p.b)))
+            zero_after_release = const_val(r) == 0 and any(is_call(de, CLS + "::destroyAll") and fn.dominates(dp, p) for dp, de in fn.events())
+            ok = keeps or zero_after_release
+            R.ob("C38.heap-bit", fn, e, ok, "size_ = %s keeps the storage-mode bit" % expr_str(r) if keeps else ("size_ = 0 after destroyAll()" if ok else
+                 "size_ = %s drops the heap bit: a spilled vector falls back to its inline buffer, leaking the heap block and its elements" % expr_str(r)),
+                 sitekey="%s:size_=" % fn.qname.split("::")[-1], why="data() must keep pointing at the storage the elements were constructed in")
+    R.need("C38.heap-bit", n, 5, "assignments to size_")
